@@ -104,10 +104,10 @@ def big_pipe(ctx, verdict, cases, name="segsegx"):
         # distinct exact value, the classes by 0..2 - the equalities are evaluated by the model checker like everything else)
         if not c["fam"].startswith("float/") and len(rows) > 1 and all(r["ev"] == "ok" for r in rows):
             ids = {}
-            def name(p):
+            def pid(p, ids=ids):
                 return ids.setdefault(tuple(v["x"] for v in p), len(ids) + 1)
             ans = ["<<%d, {%s}>>" % (("none", "point", "overlap").index(r["t"]) if r["t"] in ("none", "point", "overlap") else 9,
-                                      ", ".join(str(name(p)) for p in r["p"])) for r in rows]
+                                      ", ".join(str(pid(p)) for p in r["p"])) for r in rows]
             sym_exprs.append(" /\\ ".join("%s = %s" % (ans[0], a) for a in ans[1:]))
             sym_cases.append(c)
         for row in rows:
